@@ -161,7 +161,7 @@ def predict(st, op):
     n = len(lst)
     same = lambda exc, note='': [Outcome(exc, lst, lab, order, note=note)]
     if k == 'new':
-        return _add_seq(st, op[1])
+        return _add_seq(st, op[1] or [])
     if k == 'extend':
         return _add_seq(st, op[1])
     if k == 'append':
